@@ -32,6 +32,14 @@ CHECKS = {
         note="Trusted: rope proxies incl. find() as a case split over CRLF occurrences (model-based differential vs the real parser "
              "on sampled paths), z3. Futures/event sink are recorders.",
         design="DESIGN.md section 5 C07"),
+    "C17": dict(
+        text="encode_pdu, _write_pdu, _read_pdu (plain and under an ideal AEAD), _determine_fragment_size and the CoAP batch codec are "
+             "executed symbolically with fragment size 8..512, body length, tid/iid/opcode, per-piece control/tid/status and split "
+             "points as solver variables; z3 discharges reassembly == body, fragment <= size, rejection of wrong tid / missing "
+             "continuation flag, i-th result <-> i-th item with error precedence. Bounded by fragment/piece/item counts.",
+        note="Trusted: ideal AEAD for encrypted variants, rope/struct shims (model-based differential vs the real library incl. real "
+             "ChaCha20), z3. bleak client is a scripted stub; lru_cache bypassed via __wrapped__.",
+        design="DESIGN.md section 5 C17"),
 }
 
 NOT_APPLICABLE = {
